@@ -1,5 +1,6 @@
 import ScadVerif.Driver.C01
 import ScadVerif.Driver.C03
+import ScadVerif.Driver.C04
 import ScadVerif.Driver.C07
 import ScadVerif.Driver.C08
 import ScadVerif.Driver.C09
@@ -9,7 +10,7 @@ import ScadVerif.Driver.C12
 open ScadVerif.Driver
 
 def allHandlers : List (String × List (String × Handler)) :=
-  [("C01", C01.handlers), ("C02", C01.handlersC02), ("C03", C03.handlers), ("C07", C07.handlers), ("C08", C08.handlers), ("C09", C09.handlers), ("C10", C10.handlers), ("C11", C11.handlers), ("C12", C12.handlers)]
+  [("C01", C01.handlers), ("C02", C01.handlersC02), ("C03", C03.handlers), ("C04", C04.handlers 4), ("C05", C04.handlers 5), ("C07", C07.handlers), ("C08", C08.handlers), ("C09", C09.handlers), ("C10", C10.handlers), ("C11", C11.handlers), ("C12", C12.handlers)]
 
 def processLine (hs : List (String × Handler)) (line : String) : String :=
   let parts := line.splitOn "\t"
